@@ -68,7 +68,7 @@ LoopOK(e) == e.events <= Log15(Max(e.cap0, 16), e.final) + 2 /\ e.teq /\ e.lenok
 \* cloning at any length: no allocator request, same bytes, equal text, either side survives the other's drop
 BigCloneOK(e) == e.dA = 0 /\ e.dR = 0 /\ e.eq /\ (e.len > 16 => e.sameptr) /\ e.survives /\ e.rcok
 \* one public call on a large string, compared with String by the harness
-BigOpOK(e) == e.teq /\ e.len2 = e.explen /\ e.cap2 >= e.len2 /\ e.resok
+BigOpOK(e) == e.teq /\ e.len2 = e.explen /\ e.cap2 >= e.len2 /\ e.resok /\ e.others    \* others: a sibling cloned off earlier still reads its own text
 NoMoveOK(e) == e.fits => (e.dA + e.dR = 0 /\ e.sameptr)
 \* shrink_to(m) / shrink_to_fit on a buffer with (kilobytes of) spare room, sole owner or shared: C13's postcondition
 ShrinkOK(e) == LET t == Max(e.len, e.m) IN
